@@ -30,7 +30,11 @@ class Schema:
             bfields = {f["name"]: f["att"] for f in ((base.get("att") or {}).get("type") or {}).get("object") or []}
             for f in ((t.get("att") or {}).get("type") or {}).get("object") or []:
                 if not f["att"].get("type") and f["name"] in bfields:
-                    f["att"] = dict(bfields[f["name"]], **{k: v for k, v in f["att"].items() if k != "type"})
+                    # the re-declaration works on a copy of the base attribute: its keywords are set on top of the inherited ones
+                    merged = dict(bfields[f["name"]], **{k: v for k, v in f["att"].items() if k not in ("type", "val")})
+                    if f["att"].get("val") or bfields[f["name"]].get("val"):
+                        merged["val"] = dict(bfields[f["name"]].get("val") or {}, **(f["att"].get("val") or {}))
+                    f["att"] = merged
 
     def resolve(self, att):
         seen = 0
